@@ -479,3 +479,79 @@ func c02FamPipe(rng *Rng, id int) *c02Prog {
 	}
 	return &c02Prog{ID: id, Stream: "family-pipe", Funcs: []*c02Func{c02MkFunc(name, params, body, rty)}}
 }
+
+// ---------------------------------------------------------------- match
+// a union match whose TARGET is a compound expression (a call of an earlier function, an if-expression, a
+// let-bound call); parameters that only the target determines; binders typed by the case payload; all arms
+// unified with the result
+
+func c02FamMatch(rng *Rng, id int) *c02Prog {
+	f0, f1 := fmt.Sprintf("p%df0", id), fmt.Sprintf("p%df1", id)
+	generic := rng.Chance(1, 4)
+	// the arms: result int, built from the binder of the case
+	armsShp := func(extra *c02Exp) ([]*c02Exp, []string) {
+		k := c02I(1 + rng.Intn(9))
+		arms := []*c02Exp{
+			c02Op("arith", "+", c02V("v"), k),
+			c02G_("slice.Length", &c02Exp{K: "slice", Args: []*c02Exp{c02V("s"), c02S_("z")}}),
+			c02I(rng.Intn(5) + 1),
+			c02G_("frt.Fst", c02V("p")),
+		}
+		xs := []string{"v", "s", "", "p"}
+		if rng.Bool() {
+			arms[3], xs[3] = c02I(7), "_"
+		}
+		if extra != nil {
+			arms[2] = extra
+		}
+		return arms, xs
+	}
+	var fn0, fn1 *c02Func
+	if generic {
+		// let f0 (a:int) = Som a          let f1 x = match f0 (x * 2) with | Som v -> v + x | Non -> x
+		fn0 = c02MkFunc(f0, []c02Param{{Name: "a", Ty: c02Int, Ann: true}},
+			&c02Exp{K: "ctor", Name: "Opt", Name2: "Som", Args: []*c02Exp{c02V("a")}}, c02Named("Opt", c02Int))
+		m := &c02Exp{K: "match", Name: "Opt", Xs: []string{"v", ""}, Args: []*c02Exp{
+			c02G_(f0, c02V("x")), c02Op("arith", "+", c02V("v"), c02I(1)), c02V("x")}}
+		fn1 = c02MkFunc(f1, []c02Param{{Name: "x", Ty: c02Int, Ann: rng.Chance(1, 3), Red: true}}, m, c02Int)
+		return &c02Prog{ID: id, Stream: "family-match", Funcs: []*c02Func{fn0, fn1}}
+	}
+	// let f0 n = if n < 0 then Sq "neg" else Circ n      (n : int through the comparison with a literal)
+	fn0 = c02MkFunc(f0, []c02Param{{Name: "n", Ty: c02Int, Ann: rng.Bool(), Red: true}},
+		&c02Exp{K: "if", Args: []*c02Exp{c02Op("cmp", "<", c02V("n"), c02I(rng.Intn(9))),
+			{K: "ctor", Name: "Shp", Name2: "Sq", Args: []*c02Exp{c02S_("neg")}},
+			{K: "ctor", Name: "Shp", Name2: "Circ", Args: []*c02Exp{c02V("n")}}}}, c02Named("Shp"))
+	var params []c02Param
+	var body *c02Exp
+	rty := c02Int
+	switch rng.Intn(5) {
+	case 4: // call target, and a parameter that is only the body of an arm (typed int by the other arms)
+		arms, xs := armsShp(c02V("d"))
+		params = []c02Param{{Name: "x", Ty: c02Int, Ann: rng.Chance(1, 3), Red: true}, {Name: "d", Ty: c02Int, Ann: rng.Chance(1, 3), Red: true}}
+		if rng.Bool() {
+			params[0], params[1] = params[1], params[0]
+		}
+		body = &c02Exp{K: "match", Name: "Shp", Xs: xs, Args: append([]*c02Exp{c02G_(f0, c02V("x"))}, arms...)}
+	case 0: // the target is a call: x is determined by nothing else
+		arms, xs := armsShp(nil)
+		params = []c02Param{{Name: "x", Ty: c02Int, Ann: rng.Chance(1, 3), Red: true}}
+		body = &c02Exp{K: "match", Name: "Shp", Xs: xs, Args: append([]*c02Exp{c02G_(f0, c02V("x"))}, arms...)}
+	case 1: // the target is an if-expression building the union: c and a only through the target
+		arms, xs := armsShp(nil)
+		params = []c02Param{{Name: "c", Ty: c02Bool, Ann: rng.Chance(1, 3), Red: true}, {Name: "a", Ty: c02Int, Ann: rng.Chance(1, 3), Red: true}}
+		tgt := &c02Exp{K: "if", Args: []*c02Exp{c02V("c"), {K: "ctor", Name: "Shp", Name2: "Circ", Args: []*c02Exp{c02V("a")}}, {K: "ctor", Name: "Shp", Name2: "Dot"}}}
+		body = &c02Exp{K: "match", Name: "Shp", Xs: xs, Args: append([]*c02Exp{tgt}, arms...)}
+	case 2: // the argument of the call is itself a call of an unknown function: g : T0 -> int, y generic
+		arms, xs := armsShp(nil)
+		params = []c02Param{{Name: "g", Ty: c02Fun([]*c02Ty{c02Var(0)}, c02Int)}, {Name: "y", Ty: c02Var(0)}}
+		body = &c02Exp{K: "match", Name: "Shp", Xs: xs, Args: append([]*c02Exp{c02G_(f0, &c02Exp{K: "callp", Name: "g", Args: []*c02Exp{c02V("y")}})}, arms...)}
+	default: // let-bound target; a second parameter that is ONLY the body of a later arm: the relation between
+		// the arms is what determines it (fc unifies the arms with each other since ed18265)
+		arms, xs := armsShp(c02V("d"))
+		params = []c02Param{{Name: "x", Ty: c02Int, Ann: rng.Chance(1, 3), Red: true}, {Name: "d", Ty: c02Int, Ann: rng.Chance(1, 3), Red: true}}
+		body = c02Let("t", c02G_(f0, c02Op("arith", "*", c02V("x"), c02I(2))),
+			&c02Exp{K: "match", Name: "Shp", Xs: xs, Args: append([]*c02Exp{c02V("t")}, arms...)})
+	}
+	fn1 = c02MkFunc(f1, params, body, rty)
+	return &c02Prog{ID: id, Stream: "family-match", Funcs: []*c02Func{fn0, fn1}}
+}
